@@ -251,8 +251,8 @@ def value_oracle(fn: ast.AST, var: str, value: object) -> Callable[[Node], Optio
         """``name`` is bound once to ``D.get(var)`` with ``D`` bound once to a dict literal: returns
         (found, value node)."""
         v = single_assignment(fn, name)
-        if isinstance(v, ast.Call) and isinstance(v.func, ast.Attribute) and v.func.attr == "get" and len(v.args) == 1 and not v.keywords and isinstance(v.args[0], ast.Name) and v.args[0].id == var and isinstance(v.func.value, ast.Name):
-            d = single_assignment(fn, v.func.value.id)
+        if isinstance(v, ast.Call) and isinstance(v.func, ast.Attribute) and v.func.attr == "get" and len(v.args) == 1 and not v.keywords and isinstance(v.args[0], ast.Name) and v.args[0].id == var and isinstance(v.func.value, (ast.Name, ast.Dict)):
+            d = single_assignment(fn, v.func.value.id) if isinstance(v.func.value, ast.Name) else v.func.value
             dl = dict_literal(d) if d is not None else None
             if dl is not None:
                 return (value in dl, dl.get(value))
@@ -381,4 +381,228 @@ def plain_assignments(repo, relpaths: Iterable[str]):
             ast.fix_missing_locations(t)
             _PLAIN_CACHE[key] = t
         repo = repo.with_module(rel, tree=copy.deepcopy(_PLAIN_CACHE[key]))
+    return repo
+
+
+# ---------------------------------------------------------------------------------------------------------
+# canonical form of a module (hygiene normalisation): purely notational rewrites, each behaviour preserving
+
+
+_CANON_CACHE: Dict[Tuple[str, str, Tuple[str, ...]], ast.Module] = {}
+
+
+def _literal_ok(v: ast.AST) -> bool:
+    if isinstance(v, ast.Constant):
+        return True
+    if isinstance(v, (ast.Tuple, ast.Set)) and v.elts and all(isinstance(e, ast.Constant) for e in v.elts):
+        return True
+    if isinstance(v, ast.UnaryOp) and isinstance(v.op, ast.USub) and isinstance(v.operand, ast.Constant):
+        return True
+    return False
+
+
+def canonical_tree(tree: ast.Module, keep_names: Iterable[str] = ()) -> ast.Module:
+    """C1 ``x: T = v`` -> ``x = v``;  C2 ``x = x + y`` -> ``x += y`` (also - and |);  C3 a module-level name bound once
+    to a literal (constant / tuple or set of constants) and never rebound or shadowed is replaced by the literal at
+    its uses inside functions;  C4 keyword arguments of calls to functions / methods / classes defined once in the
+    module are written positionally when they continue the positional arguments in parameter order;  C5 a local
+    bound once and read once, in the very next statement, is substituted there (explaining locals, ``r = E; return r``).
+    Names in ``keep_names`` are never inlined (constants a rule refers to by name)."""
+    import copy
+
+    tree = copy.deepcopy(tree)
+    keep = set(keep_names)
+
+    # C1 + C2
+    class T1(ast.NodeTransformer):
+        def visit_AnnAssign(self, node):
+            self.generic_visit(node)
+            if node.value is not None and isinstance(node.target, (ast.Name, ast.Attribute, ast.Subscript)):
+                return ast.copy_location(ast.Assign(targets=[node.target], value=node.value), node)
+            return node
+
+        def visit_Assign(self, node):
+            self.generic_visit(node)
+            if len(node.targets) == 1 and isinstance(node.targets[0], (ast.Name, ast.Attribute)) and isinstance(node.value, ast.BinOp) and isinstance(node.value.op, (ast.Add, ast.Sub, ast.BitOr)):
+                if q.unparse(node.value.left) == q.unparse(node.targets[0]):
+                    return ast.copy_location(ast.AugAssign(target=node.targets[0], op=node.value.op, value=node.value.right), node)
+            return node
+
+    tree = T1().visit(tree)
+
+    # C3 module-level literals
+    binds: Dict[str, List[ast.AST]] = {}
+    for st in tree.body:
+        if isinstance(st, ast.Assign):
+            for t in st.targets:
+                for nm in [x.id for x in ast.walk(t) if isinstance(x, ast.Name)]:
+                    binds.setdefault(nm, []).append(st.value if isinstance(t, ast.Name) else None)
+        elif isinstance(st, (ast.FunctionDef, ast.AsyncFunctionDef, ast.ClassDef)):
+            binds.setdefault(st.name, []).append(None)
+        elif isinstance(st, (ast.Import, ast.ImportFrom)):
+            for a in st.names:
+                binds.setdefault((a.asname or a.name).split(".")[0], []).append(None)
+    lits = {nm: vs[0] for nm, vs in binds.items() if len(vs) == 1 and vs[0] is not None and _literal_ok(vs[0]) and nm not in keep and (nm.startswith("_") or nm.isupper())}
+    # names stored anywhere else (globals rebinding, locals, parameters) are not touched in that scope
+    if lits:
+        class T3(ast.NodeTransformer):
+            def __init__(self):
+                self.shadow: List[Set[str]] = []
+
+            def _scope(self, node):
+                loc = set()
+                a = node.args
+                for x in a.posonlyargs + a.args + a.kwonlyargs + ([a.vararg] if a.vararg else []) + ([a.kwarg] if a.kwarg else []):
+                    loc.add(x.arg)
+                for n in ast.walk(node):
+                    if isinstance(n, ast.Name) and isinstance(n.ctx, (ast.Store, ast.Del)):
+                        loc.add(n.id)
+                    elif isinstance(n, ast.Global):
+                        loc.update(n.names)
+                self.shadow.append(loc)
+                self.generic_visit(node)
+                self.shadow.pop()
+                return node
+
+            visit_FunctionDef = _scope
+            visit_AsyncFunctionDef = _scope
+            visit_Lambda = _scope
+
+            def visit_Name(self, node):
+                if self.shadow and isinstance(node.ctx, ast.Load) and node.id in lits and not any(node.id in s_ for s_ in self.shadow):
+                    return ast.copy_location(copy.deepcopy(lits[node.id]), node)
+                return node
+
+        tree = T3().visit(tree)
+
+    # C4 keyword -> positional for callees defined once in this module
+    sigs: Dict[str, List[Tuple[List[str], bool, bool]]] = {}
+    for n in ast.walk(tree):
+        if isinstance(n, ast.ClassDef):
+            for st in n.body:
+                if isinstance(st, (ast.FunctionDef, ast.AsyncFunctionDef)):
+                    ps = [a.arg for a in st.args.posonlyargs + st.args.args]
+                    is_static = any(q.dotted(d) == "staticmethod" for d in st.decorator_list)
+                    sigs.setdefault(st.name, []).append((ps if is_static else ps[1:], bool(st.args.vararg), True))
+                    if st.name == "__init__":
+                        sigs.setdefault(n.name, []).append((ps[1:], bool(st.args.vararg), False))
+    for st in tree.body:
+        if isinstance(st, (ast.FunctionDef, ast.AsyncFunctionDef)) and not any(q.dotted(d) in ("overload", "typing.overload") for d in st.decorator_list):
+            sigs.setdefault(st.name, []).append(([a.arg for a in st.args.posonlyargs + st.args.args], bool(st.args.vararg), False))
+
+    class T4(ast.NodeTransformer):
+        def visit_Call(self, node):
+            self.generic_visit(node)
+            if not node.keywords or any(isinstance(a, ast.Starred) for a in node.args):
+                return node
+            nm = None
+            if isinstance(node.func, ast.Name):
+                nm = node.func.id
+            elif isinstance(node.func, ast.Attribute) and isinstance(node.func.value, ast.Name) and node.func.value.id in ("self", "cls"):
+                nm = node.func.attr
+            elif isinstance(node.func, ast.Attribute) and isinstance(node.func.value, ast.Call) and q.dotted(node.func.value.func) == "super":
+                nm = None
+            cands = sigs.get(nm or "", [])
+            if len(cands) != 1 or cands[0][1]:
+                return node
+            ps = cands[0][0]
+            kws = {k.arg: k for k in node.keywords if k.arg is not None}
+            i = len(node.args)
+            moved = []
+            while i < len(ps) and ps[i] in kws:
+                moved.append(kws.pop(ps[i]))
+                i += 1
+            if moved:
+                node.args = list(node.args) + [k.value for k in moved]
+                node.keywords = [k for k in node.keywords if k not in moved]
+            return node
+
+    tree = T4().visit(tree)
+
+    # C5 single-use temporaries read in the very next statement
+    def inline_temps(fn):
+        changed = True
+        rounds = 0
+        while changed and rounds < 6:
+            changed = False
+            rounds += 1
+            params = {x.arg for x in fn.args.posonlyargs + fn.args.args + fn.args.kwonlyargs} | {x.arg for x in (fn.args.vararg, fn.args.kwarg) if x is not None}
+            stores: Dict[str, int] = {}
+            loads: Dict[str, int] = {}
+            nested_uses: Set[str] = set()
+            for n in ast.walk(fn):
+                if isinstance(n, ast.Name):
+                    if isinstance(n.ctx, ast.Load):
+                        loads[n.id] = loads.get(n.id, 0) + 1
+                    else:
+                        stores[n.id] = stores.get(n.id, 0) + 1
+            for n in ast.walk(fn):
+                if n is not fn and isinstance(n, (ast.FunctionDef, ast.AsyncFunctionDef, ast.Lambda, ast.ClassDef)):
+                    for x in ast.walk(n):
+                        if isinstance(x, ast.Name):
+                            nested_uses.add(x.id)
+            for blk_owner in ast.walk(fn):
+                for fld in ("body", "orelse", "finalbody"):
+                    body = getattr(blk_owner, fld, None)
+                    if not (isinstance(body, list) and body and isinstance(body[0], ast.stmt)):
+                        continue
+                    i = 0
+                    while i + 1 < len(body):
+                        st, nxt = body[i], body[i + 1]
+                        if isinstance(st, ast.Assign) and len(st.targets) == 1 and isinstance(st.targets[0], ast.Name):
+                            nm = st.targets[0].id
+                            if nm not in params and stores.get(nm) == 1 and loads.get(nm) == 1 and nm not in nested_uses and not any(isinstance(x, (ast.Await, ast.Yield, ast.YieldFrom, ast.NamedExpr)) for x in ast.walk(st.value)):
+                                # where may the single read sit in the next statement?
+                                if isinstance(nxt, (ast.Return, ast.Expr, ast.Assign, ast.AugAssign)):
+                                    roots = [nxt]
+                                elif isinstance(nxt, (ast.If, ast.While)):
+                                    roots = [nxt.test] if isinstance(nxt, ast.If) else []
+                                else:
+                                    roots = []
+                                hit = [x for r_ in roots for x in ast.walk(r_) if isinstance(x, ast.Name) and x.id == nm and isinstance(x.ctx, ast.Load)]
+                                in_scope = [x for r_ in roots for x in ast.walk(r_) if isinstance(x, (ast.Lambda, ast.ListComp, ast.SetComp, ast.DictComp, ast.GeneratorExp))]
+                                if len(hit) == 1 and not any(hit[0] in list(ast.walk(sc)) for sc in in_scope):
+                                    val = st.value
+
+                                    class Sub(ast.NodeTransformer):
+                                        def visit_Name(self, node):
+                                            if node is hit[0]:
+                                                return ast.copy_location(val, node)
+                                            return node
+
+                                    if isinstance(nxt, ast.If):
+                                        nxt.test = Sub().visit(nxt.test)
+                                    else:
+                                        body[i + 1] = Sub().visit(nxt)
+                                    del body[i]
+                                    changed = True
+                                    loads[nm] = 0
+                                    continue
+                        i += 1
+
+    for n in ast.walk(tree):
+        if isinstance(n, (ast.FunctionDef, ast.AsyncFunctionDef)):
+            inline_temps(n)
+    ast.fix_missing_locations(tree)
+    compile(tree, "<canonical>", "exec")
+    return tree
+
+
+def canonical(repo, relpaths: Iterable[str], keep_names: Iterable[str] = ()):
+    """Repo with the given modules rewritten by :func:`canonical_tree` (cached per source digest)."""
+    import copy
+
+    for rel in relpaths:
+        if not rel.startswith("tornado/"):
+            rel = "tornado/" + rel
+        m = repo.module(rel)
+        key = (rel, m.digest, tuple(sorted(keep_names)))
+        if key not in _CANON_CACHE:
+            if len(_CANON_CACHE) > 16:
+                _CANON_CACHE.clear()
+            try:
+                _CANON_CACHE[key] = canonical_tree(m.tree, keep_names)
+            except (SyntaxError, ValueError, RecursionError) as e:
+                raise AnalysisError("canonicalisation of %s failed: %s" % (rel, e))
+        repo = repo.with_module(rel, tree=copy.deepcopy(_CANON_CACHE[key]))
     return repo
